@@ -106,6 +106,8 @@ def cli_flag_check(quick=True):
                     d = os.path.join(out, 'batch')
                     shutil.rmtree(d, ignore_errors=True)
                     cmd = [exe, '--dir', d, '--samples', '40' if quick else '400', '--protocol', str(P), '--min-opcodes', '150', '--max-opcodes', '300'] + fl
+                    if ext != buf:
+                        cmd += ['--seed', str(P + 2)]
                     r = subprocess.run(cmd, capture_output=True, text=True)
                     n += 1
                     if r.returncode == 0 and os.path.isdir(d):
@@ -153,17 +155,19 @@ def cli_forwarding_check(prop, quick=True):
                         mine = [e for e in errs if e.startswith(prop)]
                         if mine:
                             return n, (' '.join(cmd[2:]), mine[0] + ' (command-line front end)')
-            d = os.path.join(out, 'batch')
-            shutil.rmtree(d, ignore_errors=True)
-            cmd = [exe, '--dir', d, '--samples', '24' if quick else '240', '--protocol', str(P), '--min-opcodes', '20', '--max-opcodes', '60']
-            r = subprocess.run(cmd, capture_output=True, text=True)
-            n += 1
-            if r.returncode == 0 and os.path.isdir(d):
-                for fn in sorted(os.listdir(d)):
-                    errs = refcheck.check_all(open(os.path.join(d, fn), 'rb').read(), P, unsafe=False, ext=False, buffer=False, min_ops=20, max_ops=60)
-                    mine = [e for e in errs if e.startswith(prop)]
-                    if mine:
-                        return n, (' '.join(cmd[1:]) + ' file ' + fn, mine[0] + ' (command-line front end, batch mode)')
+            # batch mode, without and with --seed (a seed must not override the requested protocol: seed % 6 != P here)
+            for seedargs in ([], ['--seed', str(P + 1)], ['--seed', str(6 * 7 + ((P + 3) % 6))]):
+                d = os.path.join(out, 'batch')
+                shutil.rmtree(d, ignore_errors=True)
+                cmd = [exe, '--dir', d, '--samples', '24' if quick else '240', '--protocol', str(P), '--min-opcodes', '20', '--max-opcodes', '60'] + seedargs
+                r = subprocess.run(cmd, capture_output=True, text=True)
+                n += 1
+                if r.returncode == 0 and os.path.isdir(d):
+                    for fn in sorted(os.listdir(d)):
+                        errs = refcheck.check_all(open(os.path.join(d, fn), 'rb').read(), P, unsafe=False, ext=False, buffer=False, min_ops=20, max_ops=60)
+                        mine = [e for e in errs if e.startswith(prop)]
+                        if mine:
+                            return n, (' '.join(cmd[1:]) + ' file ' + fn, mine[0] + ' (command-line front end, batch mode)')
     finally:
         shutil.rmtree(out, ignore_errors=True)
     return n, None
@@ -224,8 +228,18 @@ def cli_determinism_check(quick=True):
     return n, None
 
 
+def _die_with_parent():
+    # the replay tool must not outlive the process that started it (a hanging generation call would spin forever)
+    try:
+        import ctypes
+        import signal
+        ctypes.CDLL('libc.so.6').prctl(1, signal.SIGKILL)   # PR_SET_PDEATHSIG
+    except Exception:  # noqa: BLE001
+        pass
+
+
 def run_jobs(jobs, timeout=600):
-    p = subprocess.run([BIN], input='\n'.join(jobs) + '\n', capture_output=True, text=True, timeout=timeout)
+    p = subprocess.run([BIN], input='\n'.join(jobs) + '\n', capture_output=True, text=True, timeout=timeout, preexec_fn=_die_with_parent)
     lines = p.stdout.split('\n')
     res = []
     for i, j in enumerate(jobs):
@@ -388,6 +402,14 @@ def grid(prop, quick, seed=0):
             jobs.append('P=%d seed=%d min=150 max=400 mut=character rate=1.0' % (P, sd))
         for sd in range(30 if quick else 300):
             jobs.append('P=%d seed=%d min=150 max=400 mut=stringlen,character,boundary rate=1.0' % (P, sd))
+    if prop == 'C09':
+        # fuzzer inputs that run dry right after the first choices (every later draw is the fixed fallback): loops that
+        # re-draw "until different" or index with a fallback value show up here
+        for P in range(6):
+            for m in ('character', 'stringlen', 'bitflip', 'boundary', 'offbyone,memoindex'):
+                for x in range(0, 256, 1 if not quick else 3):
+                    jobs.append('P=%d hex=00%02x01 mut=%s rate=1.0' % (P, x, m))
+                    jobs.append('P=%d hex=0000%02x01 mut=%s rate=1.0' % (P, x, m))
     if prop in ('C01', 'C03'):
         # rare four-step histories of the protocol 4/5 vocabulary (STACK_GLOBAL, NEWOBJ_EX, ADDITEMS, FROZENSET ..)
         for P in (4, 5):
@@ -532,7 +554,18 @@ def find(prop, quick=True, seed=0, limit=None):
 def _find_chunk(arg):
     """Run one chunk of jobs on the real library and check the outputs; first violation of `prop` or None."""
     prop, chunk = arg
-    for job, line in run_jobs(chunk):
+    try:
+        results = run_jobs(chunk, timeout=300)
+    except subprocess.TimeoutExpired:
+        # a generation call that does not return (C09: "terminates"): find the job, one process per job
+        results = []
+        for job in chunk:
+            try:
+                results += run_jobs([job], timeout=20)
+            except subprocess.TimeoutExpired:
+                results.append((job, 'timeout: the generation call did not return within 20 s'))
+                break
+    for job, line in results:
         for e in findings(job, line):
             if e.startswith(prop):
                 return job, line[:20000], e
